@@ -204,10 +204,28 @@ def run(eng, rep, tier):
     # block, or inside a block, that assigns the routine's change flag (the local initialised to False that the routine
     # returns); insertions deferred through a local list are judged at the place the list is filled.
     for cls_, nm in (("IndexedGrammar", "_duplication_processing"), ("IndexedGrammar", "_production_process"), (None, "addrec_ter")):
-        fm = prog.method(cls_, nm) if cls_ else prog.functions.get("pyformlang.indexed_grammar.indexed_grammar." + nm)
+        fm = prog.find_method(IG, nm) if cls_ else prog.functions.get("pyformlang.indexed_grammar.indexed_grammar." + nm)
         if fm is None:
             continue          # the routine was merged / renamed: C17.4 (origins of the loop flag) still applies
         _change_flag(ob, rep, prog, interp, fm, IG if cls_ else None)
+    # -------------------------------------------------------------- C17.7 duplication counter = number of registrations
+    # get_generating_non_terminals counts a duplication rule A -> B C down from the constant in its cell `[A, 2]`, once
+    # per registration of the cell under a right term.  Necessary: the cell is registered once per OCCURRENCE (B B registers
+    # it twice); registered once per DISTINCT right term (a loop over set(right_terms)) the counter of A -> B B stops at 1.
+    def _has_cell(f_):
+        return f_ is not None and any(isinstance(n, ast.List) and len(n.elts) == 2 and isinstance(n.elts[1], ast.Constant)
+                                      and isinstance(n.elts[1].value, int) and not isinstance(n.elts[1].value, bool)
+                                      and n.elts[1].value >= 2 for n in ast.walk(f_.node))
+    cands = [f_ for f_ in (prog.find_method(IG, "_preprocess_rules_generating"),
+                           prog.find_method(IG, "get_generating_non_terminals")) if _has_cell(f_)]
+    cands += [f_ for f_ in prog.classes[IG].methods.values() if f_ not in cands and _has_cell(f_)]
+    if cands:
+        _dup_counter(rep, prog, interp, cands[0], IG)
+    else:
+        rep.error("R1", "C17.7", IG + ".get_generating_non_terminals", "duplication-counter-matches-registrations",
+                  "no method of IndexedGrammar builds a counter cell `[left, 2]` any more; the rule cannot follow how duplication "
+                  "rules are counted", site=site_of(prog, prog.method("IndexedGrammar", "get_generating_non_terminals"),
+                                                    prog.method("IndexedGrammar", "get_generating_non_terminals").node))
     # -------------------------------------------------------------- C17.5 intersection goes through the transducer
     fx = prog.method("IndexedGrammar", "intersection")
     sx = interp.run_entry(fx, IG)
@@ -325,3 +343,80 @@ def _change_flag(ob, rep, prog, interp, fm, recv):
               "a set is newly marked without raising the change flag %s: the sweep can report `nothing changed` and the "
               "fixpoint of is_empty stops before the start variable is marked" % "/".join(sorted(flags)), sm,
               site=(bad[0].site.to_json() if bad else site0))
+
+
+def _dup_counter(rep, prog, interp, fp, recv):
+    fn = fp.node
+    role = "duplication-counter-matches-registrations"
+    site0 = site_of(prog, fp, fn)
+    cells = [n for n in ast.walk(fn) if isinstance(n, ast.List) and len(n.elts) == 2 and isinstance(n.elts[1], ast.Constant)
+             and isinstance(n.elts[1].value, int) and not isinstance(n.elts[1].value, bool) and n.elts[1].value >= 2]
+    if len(cells) != 1:
+        return rep.error("R1", "C17.7", fp.qname, role, "cannot find the counter cell `[left, 2]` of a duplication rule (%d "
+                         "candidates); the rule cannot follow the counting" % len(cells), site=site0)
+    cell = cells[0]
+    n_init = cell.elts[1].value
+    pt = ":%d:%d" % (cell.lineno, cell.col_offset)
+    import re as _re
+
+    def is_cell(l):
+        return l[0].startswith("fresh:") and not l[1] and _re.search(_re.escape(pt) + r"(\D|$)", l[0]) is not None
+
+    def flat(av, d=0):
+        if av is None or d > 3:
+            return
+        yield av
+        for it in (av.items or ()):
+            yield from flat(it, d + 1)
+        if av.elem is not None:
+            yield from flat(av.elem, d + 1)
+    sm = interp.run_entry(fp, recv)
+    regs = [ev for ev in sm.events if ev.kind == "write" and ev.value is not None and
+            any(is_cell(l) for x in flat(ev.value) for l in (x.alias or ())) and
+            not (ev.recv is not None and any(is_cell(l) for l in (ev.recv.alias or ())))]
+    if not regs:
+        return rep.error("R1", "C17.7", fp.qname, role, "the counter cell is never registered under a right term; cannot follow",
+                         site=site0)
+    parent = {}
+    for n in ast.walk(fn):
+        for c in ast.iter_child_nodes(n):
+            parent[id(c)] = n
+    iters = {ev.site.line: ev for ev in sm.events if ev.kind == "iter"}
+
+    def inner_loops(node):
+        out, cur = [], node
+        while id(cur) in parent:
+            cur = parent[id(cur)]
+            if isinstance(cur, ast.For):
+                out.append(cur)
+        return out[:-1] if out else out          # the outermost one walks the rules
+    distinct = []
+    for ev in regs:
+        for lp in inner_loops(ev.node):
+            it = iters.get(lp.lineno)
+            is_set = isinstance(lp.iter, (ast.Set, ast.SetComp)) or (isinstance(lp.iter, ast.Call) and getattr(
+                lp.iter.func, "id", "") in ("set", "frozenset")) or (it is not None and it.recv is not None and it.recv.types
+                                                                       and it.recv.types <= {"set", "frozenset"})
+            if is_set:
+                distinct.append(ev)
+    if distinct:
+        return rep.violation("R1", "C17.7", fp.qname, role,
+                             "the counter cell of a duplication rule starts at %d but is registered once per DISTINCT right term "
+                             "(a loop over a set): for A -> B B it is counted down once and A is never found generating"
+                             % n_init, site=distinct[0].site.to_json())
+    in_loop = [ev for ev in regs if inner_loops(ev.node)]
+    idx = {ev.args[0].const for ev in sm.events if ev.kind == "subscript" and ev.args and ev.args[0].has_const()
+           and isinstance(ev.args[0].const, int) and ev.recv is not None and
+           any(l[1] and l[1][-1] == "right_terms" for l in (ev.recv.alias or ()))}
+    unpacked = any(isinstance(st, ast.Assign) and len(st.targets) == 1 and isinstance(st.targets[0], ast.Tuple)
+                   and len(st.targets[0].elts) == n_init and isinstance(st.value, ast.Attribute) and st.value.attr == "right_terms"
+                   for st in ast.walk(fn))
+    if unpacked and len({id(ev.node) for ev in regs}) >= n_init:
+        return rep.holds("R1", "C17.7", fp.qname, role, "the cell `[left, %d]` is registered under each of the %d unpacked right "
+                         "terms" % (n_init, n_init), site=site0)
+    if in_loop or len(idx) == n_init:
+        return rep.holds("R1", "C17.7", fp.qname, role, "the cell `[left, %d]` is registered once per occurrence of a right "
+                         "term (%s)" % (n_init, "a loop over the right terms" if in_loop else "positions %s" % sorted(idx)),
+                         site=site0)
+    return rep.error("R1", "C17.7", fp.qname, role, "cannot relate the %d registration sites of the counter cell to the %d right "
+                     "terms; the rule cannot follow the counting" % (len(regs), n_init), site=site0)
